@@ -132,6 +132,12 @@ func c12r1(c *Ctx, id string) {
 }
 
 func c12r2(c *Ctx, id string) {
+	c12r2counter(c, id)
+	c12r2flags(c, id)
+}
+
+// c12r2counter: who may write the active-stream counter.
+func c12r2counter(c *Ctx, id string) {
 	w := c.W
 	f := w.Field("stream", "stream", "activeStreams")
 	c.need(f != nil, id, "stream.activeStreams")
@@ -163,6 +169,11 @@ func c12r2(c *Ctx, id string) {
 	if n < 2 {
 		c.Undecided(id, "counter", 0, "only %d writers of activeStreams found", n)
 	}
+}
+
+// c12r2flags: the finished flags' protocol (reset at open, raised by the wait goroutine).
+func c12r2flags(c *Ctx, id string) {
+	w := c.W
 	// Open resets both finished flags before any call
 	for _, op := range w.implsOf("stream", "Stream", "Open") {
 		c.see(op)
